@@ -154,6 +154,19 @@ def w_history(ctx, rng, i):
         expect = {k: model[k] for k in ("sps", "R", "fs", "wavelength", "N")}
         expect.update(custom)
         check_grid(ctx, f"after {hist[-3:]} (step {step})", expect)
+        # the axes a signal hands out are its caller's to edit: a record of exactly N*sps samples (the length of gv.t / gv.w) must
+        # not be given the arrays held by gv
+        if T.gv.N is not None and T.gv.N * T.gv.sps <= 20000 and rng.integers(2):
+            nn = int(T.gv.N * T.gv.sps)
+            x = (T.electrical_signal if rng.integers(2) else T.optical_signal)(np.ones(nn))
+            with core.quiet():
+                axes = {"t()": x.t(), "w()": x.w(), "w(shift=True)": x.w(shift=True)}
+            for name, ax in axes.items():
+                held = [a for a in (T.gv.t, T.gv.w) if isinstance(a, np.ndarray)]
+                ctx.check("alias.gv_axes", isinstance(ax, np.ndarray) and ax.shape == (nn,) and not any(np.shares_memory(ax, h) for h in held), f"x.{name} of a record of N*sps samples is (a view of) the axis held by gv")
+                if isinstance(ax, np.ndarray) and ax.flags.writeable:
+                    ax *= 1e9                      # what a plotting script does with a time axis
+            check_grid(ctx, f"after editing the axes returned by a signal in place (step {step})", expect)
     ctx.case(("hist", tuple("clean" if h == "clean" else tuple(sorted(k for k in h)) for h in hist)), nontrivial=n_cfg >= 2, sample={"history": hist} if i < 5 else None)
     ctx.bin("history.len", len(hist))
     with core.quiet():
